@@ -24,6 +24,8 @@ TIMES = 'history/times.py'; HFILES = 'history/files.py'; TNETS = 'server/tnetstr
 POLL = 'server/enip/poll.py'; DEFAULTS = 'server/enip/defaults.py'; NETWORK = 'server/network.py'
 
 VARIANTS = [
+    V( 'fromregex-cut-despite-live-wildcard', AUTO, "if states.get( nxt ) is None and states[pre].get( True ) is None:", "if states.get( nxt ) is None:", fires=[ 'X-FROMREGEX' ] ),
+    V( 'fromregex-cut-test-reordered', AUTO, "if states.get( nxt ) is None and states[pre].get( True ) is None:", "if states[pre].get( True ) is None and states.get( nxt ) is None:", silent=[ 'X-FROMREGEX' ] ),
     V( 'one-failed-request-swallowed', MAIN, "log.error( \"Failed request (exception %r): %r\", exc, data )\n enip_process( addr, data=dotdict() )\n raise", "log.error( \"Failed request (exception %r): %r\", exc, data )\n                        enip_process( addr, data=dotdict() )\n                        raise", fires=[ 'P-ONE' ] ),
     V( 'strlen-largest-count-refused', PARSER, 'assert value.length < 1<<8, "SSTRING must be < 256 bytes in length; %r" % value', 'assert value.length < 0xFF, "SSTRING must be < 256 bytes in length; %r" % value', fires=[ 'L-STRLEN' ] ),
     V( 'strlen-bound-as-constant', PARSER, 'assert value.length < 1<<16, "STRING must be < 65536 bytes in length; %r" % value', 'assert value.length <= 0xFFFF, "STRING must be < 65536 bytes in length; %r" % value', silent=[ 'L-STRLEN' ] ),
